@@ -224,7 +224,7 @@ def call_factory(interp, st, ft, args, kwargs):
 
 
 # ---------------------------------------------------------------------------------------------- attributes
-_LIST_METHODS = {"append", "extend", "pop", "insert", "clear", "sort", "remove", "reverse", "copy", "index", "count"}
+_LIST_METHODS = {"add", "append", "extend", "pop", "insert", "clear", "sort", "remove", "reverse", "copy", "index", "count"}
 _DICT_METHODS = {"get", "items", "keys", "values", "pop", "update", "setdefault", "clear", "copy"}
 
 
@@ -457,6 +457,14 @@ def m_append(interp, st, selfv, args, kwargs):
     h = st.heap[selfv.d]
     if not h.fresh:
         st.mods.append(("append", repr(selfv)))
+    interp.list_append(st, selfv.d, args[0])
+    yield st, ("ok", const(None))
+
+
+@handler(("$method", "add"))
+def m_add(interp, st, selfv, args, kwargs):
+    """set.add on a heap set (kept as the list of added elements; membership is by py_eq)"""
+    interp.ctx.assume_note("elements added to a set are hashable and hash-consistent with ==")
     interp.list_append(st, selfv.d, args[0])
     yield st, ("ok", const(None))
 
@@ -727,6 +735,12 @@ def contains(interp: Interp, st: St, x: V, coll: V, negate=False):
         if isinstance(h, HList) and h.items is not None:
             xt = interp.term(st, x)
             e = z3.Or(*[T.F_pyeq(xt, interp.term(st, it)) for it in h.items]) if h.items else z3.BoolVal(False)
+            yield out(st, e)
+            return
+        if isinstance(h, HList):
+            xt = interp.term(st, x)
+            mk = z3.Int("mk!")
+            e = z3.Exists([mk], z3.And(mk >= 0, mk < h.ln, T.F_pyeq(xt, z3.Select(h.arr, mk))))
             yield out(st, e)
             return
     # symbolic collection: membership is the uninterpreted `contains`; an unhashable x in a hashed collection raises
@@ -1060,6 +1074,11 @@ def make_sequence(interp: Interp, st: St, pycls, seqval):
 def _ctor_handler(pycls):
     def h(interp, st, args, kwargs):
         if not args:
+            if pycls is set:
+                v = interp.new_list(st, [])
+                st.heap[v.d].kind_set = True
+                yield st, ("ok", v)
+                return
             if pycls is list:
                 yield st, ("ok", interp.new_list(st, []))
             elif pycls is dict:
